@@ -238,8 +238,9 @@ def model_line(ab):
 def parse_model(line):
     d = dict(t.split("=", 1) for t in line.split())
     lst = lambda s: [] if s in ("-", "") else [int(x) for x in s.split(",")]
+    pairs = lambda t: [] if not t else [tuple(int(y) for y in x.split(".")) for x in t.split(",")]
     return {"wf": d["wf"] == "1", "stack": int(d["stack"]), "stable": d["stable"] == "1", "reads": lst(d["reads"]), "users": lst(d["users"]),
-            "errors": [] if not d.get("errors") else [tuple(int(y) for y in x.split(".")) for x in d["errors"].split(",")]}
+            "errors": pairs(d.get("errors")), "bad": pairs(d.get("bad"))}
 
 
 def spec_resolve(ab, row):
@@ -423,10 +424,11 @@ def run(ctx):
             real_ids = [ab["ids"][c] for c in real_files]
             model_users = sorted(f for f in m["users"] if ab["readable"][f])
             real_users = sorted(ab["ids"][c] for c, u in flags.items() if u)
-            if model_reads != real_ids or model_users != real_users or m["errors"] != got_errs:
+            real_bad = sorted((g, i) for g, i, _ in got_sites | got_psites)
+            if model_reads != real_ids or model_users != real_users or m["errors"] != got_errs or sorted(m["bad"]) != real_bad:
                 l2 += 1
-                ctx.violation("includes-correspondence", dict(rp, stage="L2", model={"reads": model_reads, "users": model_users, "errors": m["errors"]},
-                                                              implementation={"reads": real_ids, "users": real_users, "errors": got_errs},
+                ctx.violation("includes-correspondence", dict(rp, stage="L2", model={"reads": model_reads, "users": model_users, "errors": m["errors"], "bad": sorted(m["bad"])},
+                                                              implementation={"reads": real_ids, "users": real_users, "errors": got_errs, "bad": real_bad},
                                                               broken="correspondence Includes.parseFiles <-> FileStack/parse_files"), no_input=True)
                 continue
             stats["unreadable includes"] += len(unreadable)
